@@ -631,6 +631,13 @@ def directed_histories():
                 p.Product((ub, ub)), p.FloorDiv(p.Product((z, 50)), p.Sum((ub, 1))),
                 p.Sum((CSE(p.Product((2, ub)), "h"), CSE(p.Product((2, ub)), "h")))]
     hists = [([e], [("map", 0, 0)]) for e in out]
+    # ONE subexpression wrapped under different scopes (and prefixes): still one assignment
+    for sc in ([p.cse_scope.EVALUATION, p.cse_scope.EXPRESSION, p.cse_scope.GLOBAL],
+               [p.cse_scope.GLOBAL, p.cse_scope.EVALUATION], [p.cse_scope.EXPRESSION] * 2):
+        c = p.Sum((p.Product((x, 3)), y, 17))
+        ks = [CSE(G.deep_rebuild(c) if j else c, "sc", s_) for j, s_ in enumerate(sc)]
+        es = [p.Sum(tuple(ks)), p.Product((ks[-1], ks[0])), p.Sum((CSE(c, None, sc[0]), 1))]
+        hists.append((es, [("map", 0, 0), ("copy", 0), ("map", 1, 1), ("map", 2, 0), ("map", 2, 1)]))
     # hoisted names at every length: prefixes of 1 .. 130 characters, two DIFFERENT wrapped
     # children asking for the same long prefix, and the first one again afterwards
     import random
